@@ -92,9 +92,9 @@ func (t taints) tokenKey(specific string) string {
 	if k := t.key(specific); k != specific {
 		return k
 	}
-	if t.sharedTok {
-		return "copy-shares-token-map"
-	}
+	// (the shared-Tokens-map defect of deepCopy is repaired in /repo 6dc5ead:
+	// token disagreements on lineages that took part in a Copy are no longer
+	// re-keyed, so a return of that defect is reported under its specific key)
 	return specific
 }
 
